@@ -43,6 +43,12 @@ def encodings_of_case(c, m, rng, tier):
     else:
         for name, bs, v in U.ber_variants_blind(der, rng):
             out.append({"syn": "ber", "label": name, "hex": bs.hex(), "v": v})
+    if m["name"] == "MC5" and c["tn"] == "U" and c["der"] == "a5073005a703020105":
+        # the design-round witness: an indefinite outer tag around a definite SEQUENCE.  One-shot RC_FAIL is the C03
+        # mixed-forms defect; the restarted chain check forgets the pending terminator and says RC_OK
+        v = U.Variant(rng, 0, 0, 0)
+        v.chains = [(0, [2, 4], True, True)]
+        out.append({"syn": "ber", "label": "mixed-witness", "hex": "a5803005a7030201050000", "v": v, "expect_oneshot_fail": True, "mixed_chain": True})
     if c.get("oer") and c["oer"] != "NONE":
         out.append({"syn": "oer", "label": "oer", "hex": c["oer"], "v": None})
     for key in ("xer", "cxer"):
@@ -132,6 +138,7 @@ def main(tier):
                 if vs not in seen:
                     seen.add(vs)
                     ccases.append({"mod": cm, "tn": tn, "ts": model_str(tree), "vs": vs})
+        ccases.append({"mod": cm, "tn": "U", "ts": model_str(cm["trees"]["U"]), "vs": "S{I5;}"})
         rcm, mo, me = run_lines(model, ["der %s %s" % (c["ts"], c["vs"]) for c in ccases] + ["oer %s %s" % (c["ts"], c["vs"]) for c in ccases], timeout=600)
         for i, c in enumerate(ccases):
             c["der"], c["oer"] = mo[i], mo[len(ccases) + i]
@@ -255,7 +262,7 @@ def main(tier):
             if c.get("wide"):
                 continue
             for (c2, e, line) in [x for x in sweeps if x[0] is c]:
-                if len(e["hex"]) > 1200:
+                if len(e["hex"]) > 1200 or e.get("expect_oneshot_fail"):
                     continue
                 if e["syn"] == "ber" and not e["v"].segmented:
                     ml.append("berdec %s %s" % (c["ts"], e["hex"]))
